@@ -480,6 +480,20 @@ class C12(Prop):
         # a function defined in another folder resolves imports relative to its own file
         out.append(fcase({("m.txt",): "STARTENV d.defs\nRUN imp\nSTRING back", ("d", "defs.txt"): "FUNC imp\n    START sib\nVAR fromdefs 1", ("d", "sib.txt"): "STRING sibling\nVAR s 2",
                           ("sib.txt",): "STRING wrong"}, ("m.txt",), expect_out=["STRING sibling", "STRING back"]))
+        # the same dotted name used from two different folders within ONE compilation resolves each time against
+        # the folder of the file that contains the command (seed C12-K: a per-compilation memo keyed by the name only)
+        H = {("helper.txt",): "STRING top-helper\nVAR h \"top\"", ("sub", "helper.txt"): "STRING sub-helper\nVAR h \"sub\"",
+             ("sub", "part.txt"): "START helper", ("sub", "lib.txt"): "FUNC imp\n    START helper\nFUNC impc\n    STARTCODE helper"}
+        for kind in ("START", "STARTCODE", "STARTENV"):
+            o_top, o_sub = (["STRING top-helper"], ["STRING sub-helper"]) if kind != "STARTENV" else ([], ["STRING sub-helper"])
+            h = dict(H); h[("main.txt",)] = "%s helper\nSTART sub.part\n%s helper" % (kind, kind)
+            out.append(fcase(h, ("main.txt",), expect_out=o_top + ["STRING sub-helper"] + o_top))
+            h = dict(H); h[("main.txt",)] = "START sub.part\n%s helper\nSTART sub.part" % kind
+            out.append(fcase(h, ("main.txt",), expect_out=["STRING sub-helper"] + o_top + ["STRING sub-helper"]))
+        h = dict(H); h[("main.txt",)] = "STARTENV sub.lib\nSTART helper\nRUN imp\nSTART helper\nRUN impc\n$STRING h"
+        out.append(fcase(h, ("main.txt",), expect_out=["STRING top-helper", "STRING sub-helper", "STRING top-helper", "STRING sub-helper", "STRING sub"]))  # h is not new: STARTCODE updates it
+        h = dict(H); h[("main.txt",)] = "STARTENV sub.lib\nRUN imp\nSTART helper\nREPEAT 2\n    START helper\n    RUN imp"
+        out.append(fcase(h, ("main.txt",), expect_out=["STRING sub-helper", "STRING top-helper"] + ["STRING top-helper", "STRING sub-helper"] * 2))
         out.append(fcase({("m.txt",): "VAR a 1\nSTART f\n$STRING a+b\nRUN g", ("f.txt",): "$STRING a\nVAR a 5\nVAR b 6\nFUNC g\n    STRING g\nRETURN\nSTRING never"}, ("m.txt",),
                          expect_out=["STRING 1", "STRING 11", "STRING g"]))
         out.append(fcase({("m.txt",): "VAR a 1\nSTARTCODE f\n$STRING a\nNOTEXIST b", ("f.txt",): "STRING out\nVAR a 5\nVAR b 6"}, ("m.txt",), expect_out=["STRING out", "STRING 5"]))
